@@ -95,11 +95,11 @@ example : exShape.repaired = true ∧ Good exPv exPr exSt exMem exRMem := by
 
 /-- ... and the run really does something: rows 1 and 3 reach the row buffer on both calls (the
     second one doubled by the transform) while the sink saw the first batch and failed on its second
-    call (which the filter reports as `0, nil`); the caller's arrays of both kinds are as they were -/
+    call (which the filter reports as `0` rows and the sink's error); the caller's arrays of both kinds are as they were -/
 example :
     let r := run exBeh exShape [exRows, exRows] exSt exMem exRMem
     (rowsOf r.rm (r.st.node 3).slots).map (row r.m) = [[1, 7], [3, 9, 3, 9], [1, 7], [3, 9, 3, 9]] ∧
-    (r.st.node 4).got = [[[1, 7], [3, 9]]] ∧ r.rets = [(3, false), (0, false)] ∧ r.m.take 4 = exMem ∧
+    (r.st.node 4).got = [[[1, 7], [3, 9]]] ∧ r.rets = [(3, false), (0, true)] ∧ r.m.take 4 = exMem ∧
     r.rm.take 3 = exRMem := by decide
 
 /-- **filter_as_it_was_modifies_caller_rows.** The filter writer as it stood before the repair
@@ -116,10 +116,19 @@ theorem filter_repaired_keeps_caller_rows :
     let r := run exBeh (.filter false 0 0 (.sink 1 9)) [exRows] exSt exMem exRMem
     r.rets = [(3, false)] ∧ (r.st.node 1).got = [[[1, 7], [3, 9]]] ∧ r.m = exMem ∧ r.rm.take 3 = exRMem := by decide
 
-/-- **filter_swallows_sink_error** (observation, outside C16): the shadowed `err` of filter.go:74
-    makes `WriteRows` return `0, nil` when the underlying writer failed. -/
+/-- **filter_returns_sink_error.** The code (filter.go:80-82 after `fix: FilterRowWriter returns the
+    error of the underlying writer`): a failure of the underlying writer on the first chunk is the
+    result of the call, with the count of the chunks completed before it. -/
+theorem filter_returns_sink_error :
+    (run exBeh (.filter false 0 0 (.sink 1 0)) [exRows] exSt exMem exRMem).rets = [(0, true)] := by decide
+
+/-- **filter_swallows_sink_error** (regression fact about the code BEFORE that repair, outside C16):
+    `_, err := f.writer.WriteRows(...)` shadowed the named result, `WriteRows` returned `0, nil` when the
+    underlying writer failed — both with the first repair only (`clear = false, shadow = true`) and as
+    the file first stood (`.filter true`). -/
 theorem filter_swallows_sink_error :
-    (run exBeh (.filter false 0 0 (.sink 1 0)) [exRows] exSt exMem exRMem).rets = [(0, false)] := by decide
+    (let r := filterWrite exBeh false true 0 0 (sinkWrite 1 0) exSt exMem exRMem exRows; (r.n, r.err)) = (0, false) ∧
+    (run exBeh (.filter true 0 0 (.sink 1 0)) [exRows] exSt exMem exRMem).rets = [(0, false)] := by decide
 
 /-! ## the `[]Row` argument itself: `DedupeRowWriter` -/
 
